@@ -2,15 +2,19 @@
   Model of pgdump/jsonb.go:156-250 (decodeJNumeric, DecodeNumeric, decodeNumericShort,
   decodeNumericLong, computeNumeric) as repaired by fixes/numjson/01..03 and 09.
 
-  The Go code returns a `float64`.  Lean's `Float` is opaque to the kernel, so the model carries the
-  number *exactly*: sign, integer mantissa `Σ dᵢ·10000^(k-1-i)` and base-10000 exponent
-  `weight - k + 1` — i.e. what `computeNumeric` computes when every operation is exact.  The
-  rounding of that value to a double (fix 09: one call of strconv.ParseFloat on the exact decimal text;
-  before the fix `result*10000 + d` per digit, then one multiplication or division by
-  `math.Pow(10000, |e|)`, up to 8 ulp off) is checked on the implementation side only (harness:
-  math/big oracle) and is the documented partial aspect of C05.
+  The Go code returns a `float64` obtained as `strconv.ParseFloat(text, 64)` where `text` is the exact decimal
+  text `[-]dddd…e<4·(weight−k+1)>` that computeNumeric builds from the base-10000 digits.  The model builds that
+  text, byte for byte (`numericText`), and returns it inside `NumRes.num`: the value of the result is
+  `ParseFloat(text)`.  `strconv.ParseFloat` itself is a PARAMETER (`pf : Bytes → Nat`, text ↦ IEEE-754 bits),
+  applied by `NumRes.toGo pf` / `decodeNumericGo pf`; its documented contract (correct rounding of the decimal the
+  text denotes) is stated in Spec/Numeric.lean (`ParseFloatOK`) and checked against the real strconv on every
+  generated case (the driver instantiates `pf` with the executable reference `Spec.parseFloatRef`, the harness prints
+  `math.Float64bits` of what pgread returns: bit-for-bit comparison, ±0 and int-vs-float kinds included).
+  (Before fix 09: `result*10000 + d` per digit, then one multiplication or division by `math.Pow(10000, |e|)`, up to
+  8 ulp off.)
 -/
 import PgVerif.Basic.Bytes
+import PgVerif.Types.Text
 namespace PgVerif.Model
 open PgVerif
 
@@ -22,21 +26,27 @@ deriving Repr, DecidableEq, Inhabited
 inductive NumRes where
   | none                                        -- Go `nil`
   | int0                                        -- Go `int(0)`: the `ndigits == 0` paths
+  | fzero                                       -- Go `float64(0)`: computeNumeric's `len(digits) == 0` (unreachable)
   | special (s : Special)                       -- `math.NaN()`, `math.Inf(±1)`
-  | num (neg : Bool) (mant : Nat) (exp : Int)   -- the float64 nearest to ±mant·10000^exp (see header)
+  | num (text : Bytes)                          -- the float64 `strconv.ParseFloat(text, 64)` (error discarded)
 deriving Repr, DecidableEq, Inhabited
 
-/-- `for _, d := range digits { result = result*10000 + float64(d) }` in exact arithmetic -/
-def mantissa (digits : List Nat) : Nat := digits.foldl (fun r d => r * 10000 + d) 0
+/-- `byte('0'+d/1000), byte('0'+d/100%10), byte('0'+d/10%10), byte('0'+d%10)` (Go `byte(…)` truncates to 8 bits) -/
+def digit4 (d : Nat) : Bytes :=
+  [UInt8.ofNat (48 + d / 1000), UInt8.ofNat (48 + d / 100 % 10), UInt8.ofNat (48 + d / 10 % 10), UInt8.ofNat (48 + d % 10)]
 
-/-- jsonb.go:computeNumeric (exact).  `len(digits) == 0` returns `float64(0)`; a word that is not a
-base-10000 digit makes the value corrupt: nil (fix 09).  Otherwise the decimal text
-`<digits, 4 characters each>e<4·(weight-k+1)>` is handed to strconv.ParseFloat, whose documented
-result is the float64 nearest to the decimal value: that value is what the model carries. -/
+/-- the text computeNumeric hands to strconv.ParseFloat: `-` if negative, four characters per base-10000 digit,
+`e`, then `strconv.AppendInt(buf, int64(4*(weight-len(digits)+1)), 10)` -/
+def numericText (digits : List Nat) (weight : Int) (neg : Bool) : Bytes :=
+  (if neg then [45] else []) ++ digits.flatMap digit4 ++ [101] ++ Txt.decInt (4 * (weight - digits.length + 1))
+
+/-- jsonb.go:computeNumeric.  `len(digits) == 0` returns `float64(0)`; a word that is not a base-10000 digit makes
+the value corrupt: nil (fix 09; the loop returns at the first such word, whatever was appended before).  Otherwise
+the decimal text is handed to strconv.ParseFloat and its value returned. -/
 def computeNumeric (digits : List Nat) (weight : Int) (neg : Bool) : NumRes :=
-  if digits.length == 0 then .num false 0 0
+  if digits.length == 0 then .fzero
   else if digits.any (fun d => decide (d ≥ 10000)) then .none
-  else .num neg (mantissa digits) (weight - digits.length + 1)
+  else .num (numericText digits weight neg)
 
 /-- `for i := 0; i < ndigits; i++ { digits[i] = int(u16(raw, base+i*2)) }`; `n` iterations left -/
 def readDigits (raw : Bytes) (base : Nat) : Nat → Nat → M (List Nat)
@@ -104,5 +114,17 @@ def decodeJNumeric (data : Bytes) : M NumRes := do
       let content ← slice data 1 n
       decodeNumeric content
     else decodeNumeric []
+
+/-! ### the Go value: ParseFloat applied -/
+
+/-- `strconv.ParseFloat(text, 64)` as a function from the text to the bits of the returned float64 (the error value
+is discarded by computeNumeric).  A parameter of the model. -/
+abbrev ParseFloat := Bytes → Nat
+
+/-- bits of Go's `math.NaN()`, `math.Inf(1)`, `math.Inf(-1)` -/
+def Special.bits : Special → Nat
+  | .nan => 0x7FF8000000000001
+  | .pinf => 0x7FF0000000000000
+  | .ninf => 0xFFF0000000000000
 
 end PgVerif.Model
